@@ -45,7 +45,7 @@ type qgen struct {
 	kinds     map[cellKey]byte // 's' searchable, 't' consistently tokenized, 'e' encrypted only, absent = plain
 	pool      [][]byte
 	params    [][]byte
-	hashed    []bool          // per parameter: bound to a supported comparison with a searchable column (OnBind hashes it)
+	pclass    []byte          // per parameter: 's' bound to a supported comparison with a searchable column (HashQuery.OnBind hashes it), 't' with a consistently tokenized column (the tokenization observer replaces it), 'p' neither
 	classes   map[string]bool // unsupported forms used
 	printable bool
 }
@@ -64,34 +64,34 @@ func (g *qgen) value() []byte {
 }
 
 // param returns a placeholder operand: a new parameter, or – sometimes – one that an earlier comparison
-// of the same class already uses (`$1` twice; MySQL then spells its placeholders `:vN`). `hashed` = the
-// comparison is one whose bound value OnBind replaces by the blind index. A parameter shared between a
-// hashed and an unhashed comparison can have only one value on the wire: outside the property.
-func (g *qgen) param(hashed bool) *operand {
+// of the same class already uses (`$1` twice; MySQL then spells its placeholders `:vN`). A parameter
+// shared between comparisons of different classes can have only one value on the wire: outside the property.
+func (g *qgen) param(class byte) *operand {
 	if len(g.params) > 0 && g.rd.Chance(30) {
 		i := g.rd.Intn(len(g.params))
-		if g.hashed[i] == hashed {
+		if g.pclass[i] == 'k' {
+			// (the known-finding oracle re-spells that comparison the supported way, which changes the parameter's class)
+		} else if g.pclass[i] == class {
 			g.classes["shared-placeholder"] = true
 			return &operand{kind: 'P', i: i}
-		}
-		if g.rd.Chance(15) {
+		} else if g.rd.Chance(15) {
 			g.classes["outside"] = true
 			return &operand{kind: 'P', i: i}
 		}
 	}
 	g.params = append(g.params, g.value())
-	g.hashed = append(g.hashed, hashed)
+	g.pclass = append(g.pclass, class)
 	return &operand{kind: 'P', i: len(g.params) - 1}
 }
 
-func (g *qgen) valueOperand(hashed bool) *operand {
+func (g *qgen) valueOperand(class byte) *operand {
 	switch c := g.rd.Intn(10); {
 	case c < 3:
 		return &operand{kind: 'L', v: g.value()}
 	case c < 5 && g.dialect == "pg":
 		return &operand{kind: 'K', v: g.value()}
 	default:
-		return g.param(hashed)
+		return g.param(class)
 	}
 }
 
@@ -136,19 +136,28 @@ func (g *qgen) leaf() *cond {
 			if l == nil {
 				continue
 			}
-			return &cond{op: eqne(), l: l, r: g.valueOperand(true)}
+			return &cond{op: eqne(), l: l, r: g.valueOperand('s')}
 		case c < 57: // consistently tokenized column = / <> value: the filter selects it, ParseSearchQueryPlaceholdersSettings lists it, HashQuery must leave it alone
 			l := g.col("t", g.tbl())
 			if l == nil {
 				continue
 			}
-			return &cond{op: eqne(), l: l, r: g.valueOperand(false)}
+			return &cond{op: eqne(), l: l, r: g.valueOperand('t')}
 		case c < 70: // plain / encrypted-only / tokenized column compared with a value
 			l := g.col(notSearchable, g.tbl())
 			if l == nil {
 				continue
 			}
-			return &cond{op: core.Pick(rd, []string{"=", "<>", "<"}), l: l, r: g.valueOperand(false)}
+			op := core.Pick(rd, []string{"=", "<>", "<"})
+			class := byte('p')
+			if g.kinds[cellKey{l.tbl, l.col}] == 't' {
+				if op == "<" {
+					g.classes["outside"] = true // ordering over tokens
+				} else {
+					class = 't'
+				}
+			}
+			return &cond{op: op, l: l, r: g.valueOperand(class)}
 		case c < 80: // join over two searchable columns
 			if !g.two {
 				continue
@@ -179,7 +188,7 @@ func (g *qgen) leaf() *cond {
 			l := &operand{kind: 'L', v: g.value()}
 			if rd.Bool() {
 				g.params = append(g.params, g.value())
-				g.hashed = append(g.hashed, false)
+				g.pclass = append(g.pclass, 'k') // parameter of a known unsupported form: never shared
 				l = &operand{kind: 'P', i: len(g.params) - 1}
 			}
 			return &cond{op: eqne(), l: l, r: r}
@@ -190,7 +199,7 @@ func (g *qgen) leaf() *cond {
 			}
 			g.classes["cast-placeholder"] = true
 			g.params = append(g.params, g.value())
-			g.hashed = append(g.hashed, false)
+			g.pclass = append(g.pclass, 'k')
 			return &cond{op: eqne(), l: l, r: &operand{kind: 'Q', i: len(g.params) - 1}}
 		case c < 98: // outside the property: ordering comparison / function on a searchable column
 			l := g.col("s", g.tbl())
@@ -199,7 +208,7 @@ func (g *qgen) leaf() *cond {
 			}
 			g.classes["outside"] = true
 			if rd.Bool() {
-				return &cond{op: "<", l: l, r: g.valueOperand(false)}
+				return &cond{op: "<", l: l, r: g.valueOperand('p')}
 			}
 			return &cond{op: "=", l: l, r: &operand{kind: 'O'}}
 		default: // searchable column against a column that is not searchable (either order): outside the property
@@ -386,6 +395,11 @@ func queryCases(r *core.Run) {
 		}
 		judge(r, dialect, v, c, g.params, w, cols, storedRows, plainRows, order, out, g.classes["value-on-left"] || g.classes["cast-placeholder"])
 		_ = f
+		// the same statement through BOTH observers of the proxy (consistent tokenization, then searchable
+		// encryption) over rows whose tokenized columns hold real tokens: supported forms only
+		if len(g.classes) == 0 || (len(g.classes) == 1 && g.classes["shared-placeholder"]) {
+			chainCase(r, dialect, v, c, g.params, w, cols, plainRows, order)
+		}
 	}
 }
 
@@ -480,6 +494,56 @@ func judge(r *core.Run, dialect string, v variant, c *cond, params [][]byte, w *
 	} else {
 		r.Fail("search-not-exact", desc+" – and the supported spelling "+rc.String()+" selects "+last(f2))
 	}
+}
+
+// chainCase: implementation and oracle only (token values are random, the model does not predict them).
+func chainCase(r *core.Run, dialect string, v variant, c *cond, params [][]byte, w *world, cols []string, plainRows []row, order []cellKey) {
+	kinds := parseKinds(strings.Join(cols, ";"))
+	emptyTokLiteral, skip := false, false
+	var walk func(c *cond)
+	walk = func(c *cond) {
+		if c.a != nil {
+			walk(c.a)
+			walk(c.b)
+			return
+		}
+		lt := c.l.kind == 'C' && kinds[cellKey{c.l.tbl, c.l.col}] == 't'
+		rt := c.r.kind == 'C' && kinds[cellKey{c.r.tbl, c.r.col}] == 't'
+		switch {
+		case c.l.kind == 'C' && c.r.kind == 'C' && lt != rt:
+			skip = true // a token compared with a value that is not a token: outside the property
+		case lt && (c.r.kind == 'L' || c.r.kind == 'K') && len(c.r.v) == 0:
+			emptyTokLiteral = true
+		case lt && (c.r.kind == 'L' || c.r.kind == 'K') && !printable(c.r.v):
+			skip = true // the column holds text tokens (token_type str): a client compares it with text literals
+		case lt && (c.r.kind == 'L' || c.r.kind == 'K') && len(c.r.v) == 1:
+			skip = true // the token of a 1-character string equals the string with probability 1/62 (same finding, not decidable beforehand)
+		}
+	}
+	walk(c)
+	if skip {
+		r.Tag("chain:skipped")
+		return
+	}
+	// literals are spelled as text (a hex-spelled literal of a text token column would be tokenized as the
+	// characters `\x…`, which is what the client wrote, not a defect)
+	v = parseVariant(fmt.Sprint(v.n | 1<<10))
+	want := bitsOf(c, plainRows, params)
+	out := r.Impl(fmt.Sprintf("C09.chain %s %s %s %s %s %s %d", dialect, w.toks(), strings.Join(cols, ";"), c.String(), env.List(params), rowsStr(plainRows, order), v.n))
+	f := strings.Fields(out)
+	if len(f) == 0 {
+		f = []string{"?"}
+	}
+	r.Tag("chain:" + f[0])
+	if out == "err-query" && emptyTokLiteral {
+		r.Fail("chain-token-equals-literal", fmt.Sprintf("%s %s: a consistently tokenized column is compared with the literal '' whose token is '' again – the tokenization observer's OnQuery fails with ErrUpdateLeaveDataUnchanged, the observer manager stops, and the statement is forwarded with NONE of its comparisons rewritten (condition %s, columns %s)", dialect, statement(v, c, "…"), c.String(), strings.Join(cols, ";")))
+		return
+	}
+	if len(f) != 4 || f[0] != "ok" {
+		r.Fail("chain-search-error", fmt.Sprintf("%s %s through the tokenization and the searchable-encryption observer: the statement was not forwarded (%s), condition %s, columns %s", dialect, statement(v, c, "…"), trunc(out), c.String(), strings.Join(cols, ";")))
+		return
+	}
+	r.Check(f[3] == want, "chain-search-not-exact", fmt.Sprintf("%s %s through the tokenization and the searchable-encryption observer: rows selected by the database %s, rows whose plaintext satisfies the condition %s (condition %s, columns %s)", dialect, statement(v, c, "…"), f[3], want, c.String(), strings.Join(cols, ";")))
 }
 
 // hashedParams: the parameters compared (=, <>, <=>) with a searchable column on the left – the ones OnBind replaces.
@@ -581,6 +645,11 @@ func regression(r *core.Run) {
 		{"pg-shared-placeholder-two-columns", "pg", "C.0.1,P.0,=,C.0.3,P.0,<>,&", [][]byte{[]byte("bob")}, []string{"bob", "x"}, vHexVal | vBindOrg, nil},
 		{"pg-shared-placeholder-binary", "pg", "C.0.1,P.0,=,C.0.3,P.0,=,|", [][]byte{[]byte("x")}, []string{"bob", "x"}, vBinary, nil},
 		{"mysql-shared-named-placeholder", "mysql", "C.0.1,P.0,=,C.0.3,P.0,=,|", [][]byte{[]byte("bob")}, []string{"bob", "x"}, vText, nil},
+		// through both observers: a literal after a tokenized column made MySQLTokenizeQuery.OnBind fail (fixed) …
+		{"mysql-chain-tokenized-literal-and-placeholder", "mysql", "C.0.0,L." + hx("ab") + ",<>,C.0.1,P.0,=,&", [][]byte{[]byte("bob")}, []string{"bob", "x"}, vText, mixedCols},
+		// … and the literal '' of a tokenized column (its token is '' again) stops the whole rewrite (known finding)
+		{"chain-empty-literal-on-tokenized-column", "pg", "C.0.0,L.-,<>,C.0.1,L." + hx("bob") + ",=,&", nil, []string{"bob", "x"}, vText, mixedCols},
+		{"chain-empty-literal-on-tokenized-column-mysql", "mysql", "C.0.0,L.-,<>,C.0.1,P.0,=,&", [][]byte{[]byte("bob")}, []string{"bob", "x"}, vText, mixedCols},
 	}
 	for _, wt := range wits {
 		r.Begin("regress-"+wt.name, true, "case:regression", "regress:"+wt.name)
@@ -605,5 +674,8 @@ func regression(r *core.Run) {
 		r.ModelOnly(fmt.Sprintf("C09.legacy.bind %s %s %s %s %s", wt.dialect, w.toks(), strings.Join(cols, ";"), wt.cond, env.List(wt.params)))
 		out := r.Do(fmt.Sprintf("C09.query %s %s %s %s %s %s %d", wt.dialect, w.toks(), strings.Join(cols, ";"), wt.cond, env.List(wt.params), rowsStr(storedRows, order), wt.variant))
 		judge(r, wt.dialect, v, c, wt.params, w, cols, storedRows, plainRows, order, out, true)
+		if wt.cols != nil || strings.Contains(wt.name, "shared") {
+			chainCase(r, wt.dialect, v, c, wt.params, w, cols, plainRows, order)
+		}
 	}
 }
